@@ -250,4 +250,24 @@ def run(chk, cid, prog, p, cfgname, ilu=False):
         OK('perm_r-recorded-once', pretty(pst[0]))
     else:
         V('perm_r-recorded-once', (pst or [f.body])[0], 'perm_r must be written exactly once, as perm_r[*pivrow] = jcol')
+    # the position of the remembered pivot row is only valid when the scan found that row: the variable must start from an invalid marker and be tested
+    # against it before it is used (it defaulted to the first candidate on the pinned tree: repaired in 66b46a4)
+    oldp = None
+    for (s2, g, b) in stmts:
+        if s2.k == 'Assign' and s2.a['op'] == '=' and strip(s2.c[0]).k == 'Ref' and g and any('pivrow' in pretty(c[0]) for c in g if c[1] is True):
+            if strip(s2.c[1]).k == 'Ref':
+                oldp = strip(s2.c[0]).a['id']
+    if oldp is not None:
+        n += 1
+        inits = [s2 for (s2, g, b) in stmts if s2.k == 'Assign' and s2.a['op'] == '=' and strip(s2.c[0]).k == 'Ref' and strip(s2.c[0]).a.get('id') == oldp
+                 and const_value(s2.c[1]) is not None]
+        tests = [x for x in f.body.walk() if x.k == 'Binary' and x.a['op'] in ('==', '!=', '<', '>=') and strip(x.c[0]).k == 'Ref' and strip(x.c[0]).a.get('id') == oldp
+                 and const_value(x.c[1]) is not None]
+        okp = len(inits) == 1 and const_value(inits[0].c[1]) < 0 and bool(tests)
+        if okp:
+            OK('remembered-position-validated', 'starts at %s, tested by `%s`' % (pretty(inits[0].c[1]), pretty(tests[0])))
+        else:
+            V('remembered-position-validated', (inits or [f.body])[0],
+              'the position of the remembered pivot row must start from an invalid marker (SLU_EMPTY) and be tested against it before use: when the row does not '
+              'occur in this column the remembered pivots have to be abandoned, not replaced by whatever candidate the default points to')
     return n
